@@ -8,6 +8,7 @@ import NucsProofs.Propagators.Dummy
 import NucsProofs.Propagators.Element
 import NucsProofs.Propagators.ExactOfSupport
 import NucsProofs.Propagators.GccExact
+import NucsProofs.Propagators.GccLbcFinal
 import NucsProofs.Propagators.GccPortSound
 import NucsProofs.Propagators.GccReg
 import NucsProofs.Propagators.Lex
